@@ -726,6 +726,14 @@ example :
     (st.fwd 0, st.fwd 1, st.fwd 2, st.fwd 3) = (some 0, some 1, some 2, none) ∧
     st.troots = [.new 0, .new 1, .null, .new 0] := by decide
 
+/-- the hypothesis `pending = []` is not decoration: stopped after one step, the run has forwarded
+object 0 only — object 1 is reachable but not (yet) visited, and root slot 1 still holds the
+from-space reference. -/
+example :
+    let st := exec exSnap exMoves (init exSnap) [0]
+    st.pending ≠ [] ∧ st.fwd 0 = some 0 ∧ st.fwd 1 = none ∧ st.troots = [.new 0, .old 1, .null, .old 0] := by
+  decide
+
 /-- the general theorems apply to it (hypotheses are satisfiable) -/
 example : Reach exSnap 2 ∧ ¬ Reach exSnap 3 := by
   have h := trace_reach_exact (moves := exMoves) exSnap_wf exRunA (by decide)
